@@ -191,6 +191,9 @@ def aluConstraints (D lanes kmax : Nat) (kind : ExtKind K) (ml mn pl pn : List K
     let active := (0 : K) - multA
     let selMul := active - selBool - selMulAdd - selHorner - selAdd
     let ab := extMul D kind a b
+    -- fix F22: lane 0 of an inactive row (separator / padding) must carry `out = 0` — the next row's
+    -- Horner accumulator is read from it
+    let cSep := if lane = 0 then (List.range D).map fun i => ((1 : K) - active) * vget out i else []
     let cAdd := laneAdd D selAdd a b out
     let cMul := laneEq D selMul ab out
     let cBool := laneBool D selBool a
@@ -234,7 +237,7 @@ def aluConstraints (D lanes kmax : Nat) (kind : ExtKind K) (ml mn pl pn : List K
         c1 ++ c2 ++ c3 ++ c4
       else
         hornerSingle D nextSelHorner outNextB nC nA nOut
-    cAdd ++ cMul ++ cBool ++ cMulAdd ++ horner
+    cSep ++ cAdd ++ cMul ++ cBool ++ cMulAdd ++ horner
 
 end
 
